@@ -122,7 +122,7 @@ var reserved = map[string]bool{"root": true, "packet": true, "repeat": true, "ma
 
 // spicy are text fragments that trip naive text handling: printf verbs, shell
 // and template metacharacters, quotes, backslashes, multi-byte runes.
-var spicy = []string{"sep is \\n (LF)", "\\t\\r\\n", "\\0 \\x41 \\u00e9", "%0A%0D", "100% of", "%s", "%d%%", "%v %+v", "%!", "$HOME", "${x}", "<b>&amp;</b>", "{{.}}", "a\\nb", "\\", "'q'", "\"dq\"", "tab\there", "semi;colon", "#hash", "消息\u3000类型", "émoji ☃", "-- dash", "/* c */", "// not a comment", "@tag(1)", "[1, 2]", "trailing "}
+var spicy = []string{"line one\nline two", "crlf inside\r\nthe literal", "ends with quote '", "\"quoted\"","sep is \\n (LF)", "\\t\\r\\n", "\\0 \\x41 \\u00e9", "%0A%0D", "100% of", "%s", "%d%%", "%v %+v", "%!", "$HOME", "${x}", "<b>&amp;</b>", "{{.}}", "a\\nb", "\\", "'q'", "\"dq\"", "tab\there", "semi;colon", "#hash", "消息\u3000类型", "émoji ☃", "-- dash", "/* c */", "// not a comment", "@tag(1)", "[1, 2]", "trailing "}
 
 func (g *gen) desc() string {
 	if g.r.Chance(1, 2) {
@@ -149,6 +149,23 @@ func (g *gen) basicType() string {
 
 // GenProg generates one program. size is a rough scale (1 = small).
 func GenProg(seed uint64) *Prog { return GenProgSized(seed, false) }
+
+// GenDegenerate: a program without any packet (the grammar accepts it): only
+// options, only MetaData, only a comment, or nothing at all.
+func GenDegenerate(seed uint64) *Prog {
+	p := GenProg(seed)
+	p.Pkts = nil
+	r := NewRng(SubSeed(seed, "degenerate", 0))
+	switch r.Intn(4) {
+	case 0:
+		p.Metas = nil
+	case 1:
+		p.NoOptBlock, p.Opts = true, nil
+	case 2:
+		p.Metas, p.NoOptBlock, p.Opts = nil, true, nil
+	}
+	return p
+}
 
 // GenProgSized: big = a protocol with dozens of packets and many fields, so
 // that single generated files pass size thresholds (64 KiB and more).
@@ -268,6 +285,14 @@ func GenProgSized(seed uint64, big bool) *Prog {
 			}
 		}
 	}
+	if r.Chance(1, 10) {
+		// a root packet named like a support module of some target's runtime
+		n := r.Pick([]string{"Codec", "Checksum", "Bytebuf", "MessageFactory", "Message", "Buffer", "Common", "Types", "Index", "Setup", "Conftest", "Util", "Lib", "Main", "Test", "Init"})
+		if !g.used[n] {
+			g.used[n] = true
+			names[0] = n
+		}
+	}
 	dag := make([]*Pkt, npk)
 	for i := npk - 1; i >= 0; i-- {
 		dag[i] = g.genPacket(names, i)
@@ -298,7 +323,7 @@ var touchyFieldNames = []string{"long", "short", "new", "class", "final", "type"
 
 // realistic protocol field names, including the spellings naming helpers
 // special-case (initialisms, dates, times, sequence numbers)
-var specialFieldNames = []string{"ID", "IP", "URL", "UUID", "API", "ClOrdID", "SecurityID", "OrigClOrdID", "orderID", "userId", "TradeDate", "SettlDate", "expire_date", "MaturityDate", "SendingTime", "TransactTime", "Timestamp", "CreatedAt", "MsgSeqNum", "Version", "Checksum", "Len", "Type", "Name", "Value", "Key", "Count", "Flag", "TCPPort", "HTTPCode", "Reserved", "Padding", "Class", "Self", "Default"}
+var specialFieldNames = []string{"A_Side", "T_Plus1Qty", "X_Y", "a_b", "x", "Y", "e_tag", "Px_A", "N_Legs", "i", "_private", "__dunder", "UPPER_SNAKE", "mixed_Case_Name", "trailing_", "digits123", "v2", "HTTPServerURL","ID", "IP", "URL", "UUID", "API", "ClOrdID", "SecurityID", "OrigClOrdID", "orderID", "userId", "TradeDate", "SettlDate", "expire_date", "MaturityDate", "SendingTime", "TransactTime", "Timestamp", "CreatedAt", "MsgSeqNum", "Version", "Checksum", "Len", "Type", "Name", "Value", "Key", "Count", "Flag", "TCPPort", "HTTPCode", "Reserved", "Padding", "Class", "Self", "Default"}
 
 func (g *gen) fieldName(local map[string]bool) string {
 	for tries := 0; ; tries++ {
@@ -345,9 +370,9 @@ func (g *gen) simpleField(local map[string]bool, names []string, idx int, allowI
 	case x < 30:
 		f.Kind, f.Type = FBasic, g.basicType()
 	case x < 42:
-		f.Kind, f.Size = FFixed, 1+r.Intn(20)
+		f.Kind, f.Size = FFixed, g.fixedSize()
 	case x < 52:
-		f.Kind, f.Size = FZFixed, 1+r.Intn(20)
+		f.Kind, f.Size = FZFixed, g.fixedSize()
 	case x < 62:
 		f.Kind, f.Type = FDyn, r.Pick([]string{"string", "char[]"})
 	case x < 78 && later > 0 && allowInline >= 2: // (references inside inline objects are never resolved by the compiler: generators crash)
@@ -559,6 +584,15 @@ func (g *gen) pickLater(names []string, idx, later int) string {
 		return names[len(names)-bigLeaves+g.r.Intn(bigLeaves)]
 	}
 	return names[idx+1+g.r.Intn(later)]
+}
+
+// fixedSize: mostly small, now and then payload-sized (the same few sizes, so
+// that two fields of one program share a size)
+func (g *gen) fixedSize() int {
+	if g.r.Chance(1, 12) {
+		return []int{255, 256, 257, 300, 512, 1024, 4096}[g.r.Intn(7)]
+	}
+	return 1 + g.r.Intn(20)
 }
 
 func (g *gen) metaByName(n string) *MetaDecl {
